@@ -31,6 +31,18 @@ fn main() {
     if args[1] == "worker17" {
         std::process::exit(checks::c17::worker_main(&args));
     }
+    if args[1] == "worker07" {
+        std::process::exit(checks::c07::worker_main(&args));
+    }
+    // Safety net: a change under test that allocates without bound (e.g. reads an endless device)
+    // must end this process with an allocation failure, not take the machine down with it.
+    {
+        let gb: u64 = std::env::var("VERIF_AS_LIMIT_GB").ok().and_then(|v| v.parse().ok()).unwrap_or(40);
+        let lim = libc::rlimit { rlim_cur: gb << 30, rlim_max: gb << 30 };
+        unsafe {
+            libc::setrlimit(libc::RLIMIT_AS, &lim);
+        }
+    }
     // Checks recurse into avra-rs on worker threads; give them room so that only C16's
     // sandboxed workers (which use the 8 MiB a CLI user gets) ever see a stack overflow.
     rayon::ThreadPoolBuilder::new()
